@@ -38,6 +38,7 @@ class Check:
         self.extra = {}
         self.notes = []
         self.axioms = {}
+        self.explanation = ""
 
     # ---------------------------------------------------------------- recording
     def obligation(self, name, ok, detail=""):
@@ -196,6 +197,8 @@ class Check:
             known_findings_seen=known,
         )
         cov.update(self.extra)
+        if self.explanation or self.level == "other":
+            cov["explanation"] = self.explanation or "partial: see level text in MANIFEST.json; obligations listed above are the proved part, the rest is covered by the correspondence / oracle counts"
         level = self.level
         if level == "proof" and (nob == 0 or ndis != nob):
             # a proof-level claim needs every obligation discharged; otherwise describe honestly
